@@ -53,6 +53,10 @@ func Verif_C03_ArchMtreeSources() {
 
 func verifArchMtree(o scen.Options) {
 	sc := scen.Payload(o)
+	if v.NondetBool("symlink.to.a.path.that.exists.on.the.build.host") {
+		big := models.AddFile("/src/target", bytes.Repeat([]byte("t"), 3000), 0o644, time.Unix(1500000000, 0).UTC())
+		sc.Info.Contents = append(sc.Info.Contents, &files.Content{Source: big, Destination: "/zz/abs", Type: files.TypeSymlink})
+	}
 	es, ok := verifBuild(sc)
 	v.Reach("C03.arch.ran")
 	if !ok {
